@@ -389,6 +389,17 @@ SAMPLE = """     diagonalizing the dynamical matrix ...
      freq (    3) =       5.000000 [THz] =     166.782000 [cm-1]
  (  0.000000   0.000000     1.000000   0.000000     0.000000   0.000000   )
  **************************************************************************
+     diagonalizing the dynamical matrix ...
+
+ q =      -0.3333      0.3333      0.0000
+ **************************************************************************
+     freq (    1) =       6.000000 [THz] =     200.138400 [cm-1]
+ (  0.250000  -0.250000     0.500000   0.125000    -0.750000   0.000000   )
+     freq (    2) =       7.000000 [THz] =     233.494800 [cm-1]
+ (  0.000000   0.600000     0.800000   0.000000     0.000000   0.000000   )
+     freq (    3) =       8.500000 [THz] =     283.529400 [cm-1]
+ (  0.300000   0.300000     0.300000  -0.300000     0.100000   0.900000   )
+ **************************************************************************
 """
 
 
@@ -433,7 +444,7 @@ def r_load(ctx, model):
     ev = Ev(model, {}, intr, ctx=ctx)
     f = model.func(f"{LOAD}:evec_load")
     try:
-        out = ev.call_def(f, mod, f"{LOAD}:evec_load", ["file.eig", sp.Integer(2), sp.Integer(3)], {})
+        out = ev.call_def(f, mod, f"{LOAD}:evec_load", ["file.eig", sp.Integer(3), sp.Integer(3)], {})
     except RaisedV as e:
         ctx.violation("load.reference", w, expected="the reference block is parsed", found=f"raises {e.exc_name} at {e.where}",
                       explanation=f"the matdyn reader fails on a file in the documented layout ({e.exc_name}): line counts, regexes or column "
@@ -457,6 +468,10 @@ def r_load(ctx, model):
             ((1, 3.0, 100.0692), (0.111111 + 0.222222j, 0.333333 + 0.444444j, 0.555555 + 0.666666j)),
             ((2, 4.0, 133.4256), (0.7 + 0j, 0.7j, 0.1 - 0.1j)),
             ((3, 5.0, 166.782), (0j, 1 + 0j, 0j)))),
+        ((-0.3333, 0.3333, 0.0), (
+            ((1, 6.0, 200.1384), (0.25 - 0.25j, 0.5 + 0.125j, -0.75 + 0j)),
+            ((2, 7.0, 233.4948), (0.6j, 0.8 + 0j, 0j)),
+            ((3, 8.5, 283.5294), (0.3 + 0.3j, 0.3 - 0.3j, 0.1 + 0.9j)))),
     )
 
     def close(a, b):
@@ -465,11 +480,12 @@ def r_load(ctx, model):
         if isinstance(a, tuple) or isinstance(b, tuple):
             return False
         return abs(complex(a) - complex(b)) < 1e-9
-    ctx.check(close(got, want), "reader folded on reference lines: (q, ((index, THz, cm-1), complex components)) for nq = 2, np = 3", w,
+    ctx.check(close(got, want), "reader folded on reference lines: (q, ((index, THz, cm-1), complex components)) for nq = 3, np = 3", w,
               expected=str(want)[:300], found=str(got)[:300],
               explanation="the matdyn reader does not return the printed q-coordinates, mode index, THz and cm^-1 frequencies and complex vector "
                           "components in that order (regex groups, unpack order, line counts or column slices)", key="load.reference")
-    ctx.check(lines.pos == len(lines.lines), "the reader consumes exactly the lines of nq blocks", w, expected=f"{len(lines.lines)} lines", found=f"{lines.pos} lines",
+    rest = [l for l in lines.lines[lines.pos:] if l.strip().strip("*")]
+    ctx.check(not rest, "the reader consumes the lines of nq blocks (at most a closing separator is left)", w, expected=f"{len(lines.lines)} lines (or all but the last separator)", found=f"{lines.pos} lines",
               explanation="the reader gets out of step with the block structure (header/separator line counts)", key="load.lines")
 
 
